@@ -246,6 +246,24 @@ func runC07case(t *vf.T, c c07case) {
 			t.Count("truncations", 1)
 		}
 		t.Nontrivial("")
+	case "lenbytes":
+		// every value of the first byte of every gob message (its length prefix): a longer length makes
+		// gob take the bytes that follow -- up to whole later batches -- as part of that message
+		for _, p := range st.msgOffs {
+			if p < c.From || p >= c.To {
+				continue
+			}
+			for x := 0; x < 256; x++ {
+				if byte(x) == st.bytes[p] {
+					continue
+				}
+				d := append([]byte{}, st.bytes...)
+				d[p] = byte(x)
+				judgeDamage(t, st, "lenbyte", p, c07decode(st, d, c.Dest, rnd), true)
+				t.Count("length_byte_values", 1)
+			}
+		}
+		t.Nontrivial("")
 	case "burst":
 		br := vf.NewRand(c.Data ^ 0xb0057)
 		for i := 0; i < c.N; i++ {
@@ -326,6 +344,11 @@ func runC07(r *vf.Runner) {
 			for from := 0; from <= len(st.bytes); from += 64 {
 				cc := c
 				cc.Kind, cc.From, cc.To = "truncs", from, from+64
+				run(cc)
+			}
+			for from := 0; from <= len(st.bytes); from += 64 {
+				cc := c
+				cc.Kind, cc.From, cc.To = "lenbytes", from, from+64
 				run(cc)
 			}
 		}
